@@ -650,6 +650,11 @@ impl PeerConn {
         g.ep_read_closed && g.ep_write_closed
     }
 
+    /// Bytes this peer has written towards the endpoint
+    pub fn sent_by_peer(&self) -> u64 {
+        self.0.lock().unwrap().inp.written
+    }
+
     /// When the endpoint had dropped both halves of its handle (its socket is released)
     pub fn endpoint_closed_at(&self) -> Option<u64> {
         self.0.lock().unwrap().closed_at_us
@@ -772,6 +777,8 @@ impl tokio::io::AsyncWrite for PeerIo {
                     p.stalled = true;
                     let d = if p.stall_us == u64::MAX { std::time::Duration::from_secs(400 * 86_400) } else { std::time::Duration::from_micros(p.stall_us) };
                     trace(Ev::Note, 910, at, p.stall_us.min(1 << 40));
+                    let t = now_us();
+                    with(|w| w.stall_noted_at = Some(t));
                     let mut s = Box::pin(tokio::time::sleep(d));
                     if std::future::Future::poll(s.as_mut(), cx).is_pending() {
                         p.sleep = Some(s);
@@ -1119,6 +1126,8 @@ pub struct Inner {
     next_id: u32,
     next_port: u16,
     pub census: Census,
+    /// when a paced peer began its planned stall
+    pub stall_noted_at: Option<u64>,
     pub hosts: HashMap<SocketAddr, HostPlan>,
     pub default_host: Option<HostPlan>,
     pub dns: HashMap<String, DnsPlan>,
@@ -1151,6 +1160,10 @@ thread_local! {
 
 pub fn with<R>(f: impl FnOnce(&mut Inner) -> R) -> R {
     W.with(|w| f(w.borrow_mut().as_mut().expect("world not installed")))
+}
+
+pub fn stall_noted_at() -> Option<u64> {
+    with(|w| w.stall_noted_at)
 }
 
 pub fn is_installed() -> bool {
@@ -1263,6 +1276,7 @@ pub fn install(seed: u64) {
         next_id: 1,
         next_port: 40000,
         census: Census::default(),
+        stall_noted_at: None,
         hosts: HashMap::new(),
         default_host: None,
         dns: HashMap::new(),
